@@ -34,4 +34,5 @@ def run(tier, seed):
                        "Unit 2: the eight initial duals are positively oriented. Unit 3: every queryable position (closed interval, mirrors and periodic images) "
                        "stays inside iloc's [1,2) rescaling: over the reals for all boxes (E2) and bit-precisely on the real crate for the stated windows (E3).",
     }
+    meta["assumptions"] = list(meta["assumptions"]) + kani.scan_assumptions()
     return results, meta
